@@ -49,20 +49,25 @@ type gfunc struct {
 	res    gty
 	src    string
 	tuples [][]argval // data programs: the argument tuples to call the function with (nil: drawn at random)
+	// the literals of the program the function belongs to and values next to them: half of the random argument
+	// tuples are drawn from here, so that comparisons of a parameter with a literal see equal and nearly equal operands
+	dictS     []string
+	dictI     []int64
+	smallInts bool // int arguments stay small (hand-written programs whose loops are bounded by an argument)
 }
 
 // Features switch on constructs that exercise specific (possibly defective) compiler paths.
 type features struct {
-	logicInArgs  bool // || / && inside call arguments and under other operands
-	callCombine  bool // results of user calls combined with other operands
-	ifNested     bool // if/else whose then-branch ends in a nested if / loop
-	ifInit       bool // if with an init statement
-	compound     bool // x += e / x -= e
-	shadowParam  bool // a local in a nested block named like a parameter
-	blankParams  bool // several blank parameters
-	forClauses   bool // for loops with only init+cond or cond+post
-	rejects      bool // now and then a construct the compiler must reject
-	manyConsts   bool // > 256 distinct constants in one function
+	logicInArgs bool // || / && inside call arguments and under other operands
+	callCombine bool // results of user calls combined with other operands
+	ifNested    bool // if/else whose then-branch ends in a nested if / loop
+	ifInit      bool // if with an init statement
+	compound    bool // x += e / x -= e
+	shadowParam bool // a local in a nested block named like a parameter
+	blankParams bool // several blank parameters
+	forClauses  bool // for loops with only init+cond or cond+post
+	rejects     bool // now and then a construct the compiler must reject
+	manyConsts  bool // > 256 distinct constants in one function
 }
 
 type gen struct {
@@ -84,7 +89,7 @@ type gen struct {
 }
 
 var strPool = []string{"", "a", "ab", "abc", "b", "foo", "bar", "foobar", "42", "-7", "x y", "0", "9223372036854775807", "aXb", "é",
-	"100%", "%d", "a\x00b", "\xff", "abab", "+5", " 42"}
+	"100%", "%d", "a\x00b", "\xff", "abab", "+5", " 42", "A", "Ab", "世界"}
 var intPool = []int64{0, 1, 2, 3, -1, 5, 7, 10, 11, 42, 100, -100, 255, 256, 1000, 1 << 40, -(1 << 40), 9223372036854775807, -9223372036854775808, 9223372036854775806}
 
 func (g *gen) note(k string) { g.counts[k]++ }
